@@ -15,4 +15,7 @@ theorem closeSites_eq_covered : Netpoll.Gen.closeSites = coveredSites.map Site.d
 /-- the site of the pre-fix `listener.Close` is not reached by any lifecycle of the fixed code -/
 theorem rawfd_site_not_covered : Site.listener_Close_rawfd ∉ coveredSites := by decide +kernel
 
+/-- the close added by the fix of F1 (`CreateListener`: `ln.Close()` on a `ConvertListener` error) is reached -/
+theorem createListener_site_covered : Site.createListener_ln ∈ coveredSites := by decide +kernel
+
 end Netpoll.Tie.Fd
